@@ -5,53 +5,9 @@
 //!   vcheck replay <ID> <file>              strict re-run of a saved case
 //!   vcheck worker ... / vcheck one ...     internal
 
-mod c01;
-mod c02;
-mod c03;
-mod c04;
-mod c05;
-mod c06;
-mod c07;
-mod c08;
-mod c09;
-mod c10;
-mod c11;
-mod c12;
-mod c13;
-mod c14;
-mod c15;
-mod c16;
-mod c17;
-mod c18;
-mod c19;
-mod c20;
-mod compile;
-mod doc;
-mod engine;
-mod gen;
-mod guard;
-mod inject;
-mod model;
-mod observe;
-mod refcheck;
-mod request;
-mod render;
-mod rules;
-mod proc;
-mod wire;
 
-use engine::{Check, Tier};
-
-fn registry() -> Vec<&'static dyn Check> {
-    vec![&c01::C01, &c02::C02, &c03::C03, &c04::C04, &c05::C05, &c06::C06, &c07::C07, &c08::C08, &c09::C09, &c10::C10, &c11::C11, &c12::C12, &c13::C13, &c14::C14, &c15::C15, &c16::C16, &c17::C17, &c18::C18, &c19::C19, &c20::C20]
-}
-
-fn find(id: &str) -> &'static dyn Check {
-    registry().into_iter().find(|c| c.id() == id).unwrap_or_else(|| {
-        eprintln!("vcheck: unknown property {id}");
-        std::process::exit(2)
-    })
-}
+use vcheck::engine::{self, Tier};
+use vcheck::{find, registry};
 
 fn main() {
     let args: Vec<String> = std::env::args().collect();
